@@ -331,11 +331,18 @@ func (r *Receiver) SegmentHandlerFunc(w http.ResponseWriter, req *http.Request) 
 		trD = &trData{name: stream.trName}
 		ch.trDatas[stream.trName] = trD
 	}
+	// The number of this upload is taken while the lock is held: overlapping uploads of a track
+	// must not see the same number (they would be written to the same file).
+	nrSegsReceived := trD.nrSegsReceived
+	full := nrSegsReceived >= ch.receiveNrRaws && (contentLength == 0 || contentLength >= 4096)
+	if !full {
+		trD.nrSegsReceived++
+	}
 	ch.mu.Unlock()
 
-	if trD.nrSegsReceived >= ch.receiveNrRaws && (contentLength == 0 || contentLength >= 4096) {
+	if full {
 		log.Debug("Max number of raw segments received. Will not store.", "nrSegsReceived",
-			trD.nrSegsReceived, "receiveNrRaws", ch.receiveNrRaws)
+			nrSegsReceived, "receiveNrRaws", ch.receiveNrRaws)
 		err = req.Body.Close()
 		if err != nil {
 			log.Error("Failed to close request body", "err", err)
@@ -344,9 +351,9 @@ func (r *Receiver) SegmentHandlerFunc(w http.ResponseWriter, req *http.Request) 
 		return
 	}
 
-	fileName := fmt.Sprintf("%s_%d%s", stream.trName, trD.nrSegsReceived, stream.ext)
+	fileName := fmt.Sprintf("%s_%d%s", stream.trName, nrSegsReceived, stream.ext)
 	if contentLength != 0 && contentLength < 4096 {
-		fileName = fmt.Sprintf("%s_init_%d%s", stream.trName, trD.nrSegsReceived, stream.ext)
+		fileName = fmt.Sprintf("%s_init_%d%s", stream.trName, nrSegsReceived, stream.ext)
 	}
 	filePath = filepath.Join(stream.trDir, fileName)
 	log.Info("Receiving raw segment", "url", path, "filePath", filePath, "size", contentLength)
@@ -384,7 +391,6 @@ func (r *Receiver) SegmentHandlerFunc(w http.ResponseWriter, req *http.Request) 
 			break
 		}
 	}
-	trD.nrSegsReceived++
 }
 
 // DiscardUpload reads and discards the upload and returns the status code.
